@@ -8,6 +8,7 @@ import threading
 from crosshair.tracers import NoTracing
 
 from vt import lift, ref_format as RF, rt, world
+from vt.lift import RealFallback
 from vt.core import digits, shard, tick
 from vt.harness import hist
 from vt.harness.gc import R, Repository, exceptions, fresh_repo
@@ -28,7 +29,7 @@ _MK_PRODUCER = lift.lift_closure('replicat.repository', 'snapshot', '_chunk_prod
                                  overrides={'logger': rt.Nop(), 'logging': rt.Nop()})
 
 
-class _X1Self:
+class _X1Self(RealFallback):
     get_chunk_location = Repository.get_chunk_location
     _chunk_digest_to_location_parts = Repository._chunk_digest_to_location_parts
     _chunk_digest_to_location = Repository._chunk_digest_to_location
